@@ -2,6 +2,7 @@
 //! crates with instrumented closures, and compares the reference predictions of "expect" entries.
 
 use crate::val::{self, Val};
+use incremental::expert;
 use incremental::{Cutoff, Incr, IncrState, Observer, SubscriptionToken, Update, Var, WeakState};
 use serde_json::{json, Value as J};
 use std::cell::{Cell, RefCell};
@@ -63,6 +64,13 @@ fn read_json(r: Result<Val, incremental::ObserverError>) -> J {
 }
 
 impl Ctx {
+    /// parse a value; ["n", id, 0] becomes a handle to node id
+    pub fn val(&self, j: &J) -> Option<Val> {
+        if j[0] == "n" {
+            return Some(Val::N(self.node(j[1].as_u64().unwrap() as usize)));
+        }
+        Val::from_json(j)
+    }
     fn with<R>(&self, f: impl FnOnce(&mut Tables) -> R) -> Option<R> {
         let rc = self.tables.upgrade()?;
         let mut t = rc.try_borrow_mut().ok()?;
@@ -275,7 +283,7 @@ impl Session {
         match kind {
             "var" => {
                 let id = ctx.next_id();
-                let v = self.st().var(Val::from_json(&a["v"]).unwrap());
+                let v = self.st().var(ctx.val(&a["v"]).unwrap());
                 ctx.push_node(id, Some(v.watch()));
                 self.t.borrow_mut().vars.insert(id, v);
             }
@@ -369,6 +377,80 @@ impl Session {
                 let n = x.depend_on(&y);
                 ctx.push_node(id, Some(n));
             }
+            "xjoin" => {
+                // join() of tests/expert.rs: expert node (id), controlling map (id + 1)
+                let id = ctx.next_id();
+                let input = self.node(a["in"].as_u64().unwrap() as usize);
+                let prev: Rc<RefCell<Option<expert::Dependency<Val>>>> = Rc::new(RefCell::new(None));
+                let c2 = ctx.clone();
+                let join = expert::Node::<Val>::new(&ctx.ws, {
+                    let prev_ = prev.clone();
+                    move || {
+                        c2.with(|t| t.log.inv.push((id, vec![])));
+                        prev_.borrow().clone().unwrap().value_cloned()
+                    }
+                });
+                let join_ = join.weak();
+                let c3 = ctx.clone();
+                let lhs_change = input.map(move |rhs: &Val| {
+                    c3.with(|t| t.log.inv.push((id + 1, vec![rhs.to_json()])));
+                    let Val::N(r) = rhs else { panic!("harness: xjoin input is not a node value") };
+                    let dep = join_.add_dependency(r);
+                    let mut p = prev.borrow_mut();
+                    if let Some(old) = p.take() {
+                        join_.remove_dependency(old);
+                    }
+                    p.replace(dep);
+                    Val::U
+                });
+                join.add_dependency(&lhs_change);
+                ctx.push_node(id, Some(join.watch()));
+                ctx.push_node(id + 1, None);
+            }
+            "xsum" => {
+                // dynamic sum of the first `sel` nodes of ins, kept up to date by edge callbacks
+                let id = ctx.next_id();
+                let sel = self.node(a["sel"].as_u64().unwrap() as usize);
+                let ins: Vec<Incr<Val>> = a["ins"].as_array().unwrap().iter().map(|x| self.node(x.as_u64().unwrap() as usize)).collect();
+                let store: Rc<RefCell<Vec<(u64, Val)>>> = Rc::new(RefCell::new(vec![]));
+                let c2 = ctx.clone();
+                let node = expert::Node::<Val>::new(&ctx.ws, {
+                    let store_ = store.clone();
+                    move || {
+                        c2.with(|t| t.log.inv.push((id, vec![])));
+                        Val::I(store_.borrow().iter().map(|(_, v)| v.int()).sum::<i64>() % val::k())
+                    }
+                });
+                let node_ = node.weak();
+                let deps: RefCell<Vec<(u64, expert::Dependency<Val>)>> = RefCell::new(vec![]);
+                let next_key = Cell::new(0u64);
+                let c3 = ctx.clone();
+                let ctl = sel.map(move |x: &Val| {
+                    c3.with(|t| t.log.inv.push((id + 1, vec![x.to_json()])));
+                    let want = x.int() as usize;
+                    let mut deps = deps.borrow_mut();
+                    while deps.len() < want {
+                        let key = next_key.get() + 1;
+                        next_key.set(key);
+                        let st = store.clone();
+                        let dep = node_.add_dependency_with(&ins[deps.len()], move |v: &Val| {
+                            let mut st = st.borrow_mut();
+                            st.retain(|(k, _)| *k != key);
+                            st.push((key, v.clone()));
+                        });
+                        deps.push((key, dep));
+                    }
+                    while deps.len() > want {
+                        let (key, dep) = deps.pop().unwrap();
+                        node_.remove_dependency(dep);
+                        store.borrow_mut().retain(|(k, _)| *k != key);
+                    }
+                    Val::U
+                });
+                node.add_dependency(&ctl);
+                ctx.push_node(id, Some(node.watch()));
+                ctx.push_node(id + 1, None);
+            }
             "bind" => {
                 let id = ctx.next_id();
                 let lhs = self.node(a["in"].as_u64().unwrap() as usize);
@@ -396,7 +478,7 @@ impl Session {
             "write" => {
                 let id = a["n"].as_u64().unwrap() as usize;
                 let var = self.t.borrow().vars.get(&id).cloned().unwrap();
-                let ret = write_var(&var, a["op"].as_str().unwrap(), Val::from_json(&a["x"]));
+                let ret = write_var(&var, a["op"].as_str().unwrap(), ctx.val(&a["x"]));
                 if let Some(r) = ret {
                     self.t.borrow_mut().log.rets.push(json!({"v": id, "r": r.to_json()}));
                 }
